@@ -31,7 +31,7 @@ use std::collections::{BTreeMap, HashMap};
 
 const T: [u8; 7] = R_TMP;
 const OPS: [&str; 13] = ["SCWQ", "SRW", "SRWQ", "SWW", "SWWQ", "SCLR", "SRDD", "SRDI", "SWRD", "SWRI", "SUPD", "SUPI", "SPLD"];
-const CHUNK_CAP: u64 = 64;
+const CHUNK_CAP: u64 = 1024;
 const BYTES_CAP: u64 = 8192;
 
 // ------------------------------------------------------------------------------------------------
@@ -70,12 +70,12 @@ fn peek(vm: &Vm, pre: &Pre) -> Peek {
         "SPLD" => rd(v[1], 32),
         "SRWQ" => {
             rd(v[2], 32);
-            for i in 0..v[3].min(CHUNK_CAP) { wrs.push((sat_chunk(v[0], i), 32)); }
+            for i in 0..v[3].min(CHUNK_CAP) { let a = sat_chunk(v[0], i); wrs.push((a, 32)); if mem_write_check(mem, pre, a, 32).is_some() { break; } }   // the loop stops at the first refusal
             dst = (v[0], v[3].saturating_mul(32));
         }
         "SWWQ" => {
             rd(v[0], 32);
-            for i in 0..v[3].min(CHUNK_CAP) { rd(sat_chunk(v[2], i), 32); }
+            for i in 0..v[3].min(CHUNK_CAP) { let a = sat_chunk(v[2], i); rd(a, 32); if mem.read(a, 32u64).is_err() { break; } }   // the loop stops at the first fault
         }
         "SRDD" | "SRDI" => {
             rd(v[1], 32);
@@ -388,6 +388,20 @@ fn generated_history(rng: &mut Rng) -> Hist {
 // ------------------------------------------------------------------------------------------------
 struct TxRun { run: ProbeRun<Peek, After>, commit: bool, max_len: u64, costs: BTreeMap<String, CostVal>, inputs: Vec<ContractId> }
 
+/// the same world with storage_read_hot := storage_read_cold, so that emptying the cache cannot change the gas
+fn equal_read_costs(w: &World) -> World {
+    use fuel_tx::{GasCosts, GasCostsValues};
+    let v: GasCostsValues = w.params.gas_costs().clone().into();
+    let mut j = serde_json::to_value(&v).expect("gas costs to json");
+    if let Some(inner) = j.as_object_mut().and_then(|m| m.values_mut().next()).and_then(|x| x.as_object_mut()) {
+        if let Some(c) = inner.get("storage_read_cold").cloned() { inner.insert("storage_read_hot".into(), c); }
+    }
+    let v: GasCostsValues = serde_json::from_value(j).expect("gas costs from json");
+    let mut w2 = w.clone();
+    w2.params.set_gas_costs(GasCosts::new(v));
+    w2
+}
+
 fn run_history(h: &Hist, clear_cache: bool) -> Result<Vec<TxRun>, String> {
     let mut storage = h.world.storage.clone();
     let mut out = vec![];
@@ -662,13 +676,25 @@ fn oracle_cache(out: &mut Out, h: &Hist, a: &[TxRun], b: &[TxRun], replay: &Valu
         if oog(x) || oog(y) { out.count("cache-comparison-skipped-out-of-gas"); return; }   // later transactions run on different worlds
         let sx: Vec<_> = x.run.steps.iter().filter(|s| s.1.is_storage).collect();
         let sy: Vec<_> = y.run.steps.iter().filter(|s| s.1.is_storage).collect();
-        let mut bad = sx.len() != sy.len() || x.commit != y.commit || dump_state(&x.run.storage) != dump_state(&y.run.storage);
+        let mut why = vec![];
+        if sx.len() != sy.len() { why.push(format!("{} vs {} storage steps", sx.len(), sy.len())); }
+        if x.commit != y.commit { why.push("commit differs".to_string()); }
+        if dump_state(&x.run.storage) != dump_state(&y.run.storage) {
+            let (a, b) = (dump_state(&x.run.storage), dump_state(&y.run.storage));
+            let mut dd = vec![];
+            for (k, v) in &a { if b.get(k) != Some(v) { dd.push(format!("key ..{}: {} vs {:?}", hex::encode(&k.1[28..]), hex::encode(v), b.get(k).map(hex::encode))); } }
+            for (k, v) in &b { if !a.contains_key(k) { dd.push(format!("key ..{}: absent vs {}", hex::encode(&k.1[28..]), hex::encode(v))); } }
+            dd.truncate(3);
+            why.push(format!("storage after differs: {dd:?}"));
+        }
         for (p, q) in sx.iter().zip(sy.iter()) {
             let f = p.0.fields();
-            if p.2.outcome != q.2.outcome || p.2.regs[f[0] as usize] != q.2.regs[f[0] as usize] || p.2.regs[f[1] as usize] != q.2.regs[f[1] as usize]
-                || p.2.regs[8] != q.2.regs[8] || p.3.mem_after != q.3.mem_after { bad = true; }
+            if p.2.gas_charged(&p.0) != q.2.gas_charged(&q.0) && p.2.outcome == q.2.outcome && p.2.outcome == Outcome::Proceed { why.push(format!("step {} {}: gas differs although hot = cold", p.0.index, p.0.mnemonic)); }
+            if p.2.outcome != q.2.outcome { why.push(format!("step {} {}: outcome {:?} vs {:?}", p.0.index, p.0.mnemonic, p.2.outcome, q.2.outcome)); }
+            if p.2.regs[f[0] as usize] != q.2.regs[f[0] as usize] || p.2.regs[f[1] as usize] != q.2.regs[f[1] as usize] || p.2.regs[8] != q.2.regs[8] { why.push(format!("step {} {}: result registers differ", p.0.index, p.0.mnemonic)); }
+            if p.3.mem_after != q.3.mem_after { why.push(format!("step {} {}: bytes read differ", p.0.index, p.0.mnemonic)); }
         }
-        if bad { out.oracle_fail("slot-cache-changes-a-result", &format!("tx {ti}: results with the slot cache differ from results with the cache emptied before every instruction"), replay.clone()); }
+        if !why.is_empty() { why.truncate(4); out.oracle_fail("slot-cache-changes-a-result", &format!("tx {ti}: results with the slot cache differ from results with the cache emptied before every instruction: {why:?}"), replay.clone()); }
         let _ = h;
     }
 }
@@ -709,9 +735,12 @@ fn process(out: &mut Out, _args: &Args, h: &Hist, idx: usize) {
         }
     }
     if h.clear_cache_run {
-        match guarded(|| run_history(h, true)) {
-            Ok(Ok(r2)) => oracle_cache(out, h, &runs, &r2, &replay),
-            Ok(Err(_)) => {}
+        // O3 on a copy of the world where a hot read costs what a cold read costs: programs can observe gas
+        // (saved $cgas/$ggas in call frames, register reads), so the comparison needs equal gas in both runs
+        let h2 = Hist { world: equal_read_costs(&h.world), txs: h.txs.clone(), note: h.note.clone(), clear_cache_run: true };
+        match guarded(|| (run_history(&h2, false), run_history(&h2, true))) {
+            Ok((Ok(r1), Ok(r2))) => oracle_cache(out, &h2, &r1, &r2, &replay),
+            Ok(_) => {}
             Err(p) => out.oracle_fail("host-panic-in-storage-history", &format!("history {idx} (cache emptied): host panic {p}"), replay.clone()),
         }
     }
